@@ -217,7 +217,7 @@ def seeded_agreement(cfg, p):
 
 def all_cfgs(tier):
     out = []
-    for n in (2, 3, 4):
+    for n in (1, 2, 3, 4):
         for nc in ((2, 3) if tier == "quick" else (2, 3, 4)):
             for sh in (("equal_vec", "differ", "differ2") if tier == "quick" else SHAPES):
                 for prob in (0.3, 1.0):
@@ -254,7 +254,7 @@ def run(run):
     chunk = 1
     modes = MODES if run.tier == "thorough" else MODES[:5]
     run.pmap(task, [(cfgs[i:i + chunk], modes) for i in range(0, len(cfgs), chunk)])
-    run.extra.update(bounds=dict(n="2..4", classes="2..4", shapes=list(SHAPES), p=[0.3, 1.0], unit_alphabet=UNIT,
+    run.extra.update(bounds=dict(n="1..4", classes="2..4", shapes=list(SHAPES), p=[0.3, 1.0], unit_alphabet=UNIT,
                                  beta_alphabet=BETA, partner="full range", seeds_real="0..7"), configs=len(cfgs))
     run.assumptions += [
         "cutmix configurations answer NotImplementedError (explicit, outside the claim)",
